@@ -91,6 +91,17 @@ CHECKS = {
         "SasviewModel class-level caches are not under contract yet",
    technique=TECH + "Python AST -> VCs with loop invariants -> z3; frame and stale-buffer witnesses replayed on real kernels",
    design="DESIGN.md 6 C11"),
+ "C13": dict(engine="symcheck",
+   text="For every shape:* model with length/SLD/angle/dimensionless units every C function reachable from Iq/Fq/Iqac/Iqabc/form_volume/"
+        "shell_volume/radius_effective (clang AST of the generated source) is graded with degree vectors (lambda, mu) derived from "
+        "the declared units; a consistent grading proves f(lambda^d x) = lambda^k f(x) and f(mu rho) = mu^k f: deg(F^2)-deg(V_shell) = (3,2), "
+        "deg(F)=deg(F^2)/2, volumes (3,0), R_eff (1,0); callees are graded modularly (memoised per argument degrees). A failed "
+        "constraint names the expression and is replayed numerically (lambda/mu-scaled parameter sets, 1-D and 2-D) on the compiled model.",
+   note="reals; special functions graded by signature (dimensionless in, dimensionless out); where the grading fails but the numeric "
+        "scaling test agrees (thresholds against constants, q=0 branches) the clause is reported as a bounded numeric stand-in and not "
+        "counted as proved (listed in the evidence); argument binding table->C call is a C01 obligation",
+   technique=TECH + "degree grading (homogeneity contracts) over clang's AST, modular per function; numeric scaling replay",
+   design="DESIGN.md 6 C13"),
  "C20": dict(engine="pyvc",
    text="convert_model and its 12 helpers are executed symbolically once per table entry and naming scheme with a finite-map "
         "input whose keys carry symbolic presence bits and symbolic values (state merging), so one run covers every subset "
@@ -126,6 +137,8 @@ m = {
  "engines": [
   {"name": "pyvc", "path": "vp/pyvc.py", "serves_properties": sorted(p for p, c in CHECKS.items() if "pyvc" in c["engine"]),
    "kind_free_text": "Python AST symbolic executor generating verification conditions for z3 (cvc5 fallback); sidecar contracts in contracts/"},
+  {"name": "symcheck", "path": "vp/symcheck.py", "serves_properties": sorted(p for p, c in CHECKS.items() if "symcheck" in c["engine"]),
+   "kind_free_text": "homogeneity/degree grading of C functions over clang's JSON AST (relational contracts)"},
   {"name": "cvc", "path": "vp/cvc.py", "serves_properties": sorted(p for p, c in CHECKS.items() if "cvc" in c["engine"]),
    "kind_free_text": "C symbolic executor over clang's JSON AST of the generated kernel source; VCs for z3"},
  ],
